@@ -50,6 +50,8 @@ class Resolver:
         self.src_cache = {}
         self.impls = {}        # span -> (trait_base or None, self_base, header text, full trait text)
         self.by_trait_full = {}
+        self.fn_impl = {}
+        self.crate_types = None
         self.by_type = {}      # (self_base, method) -> [names]
         self.by_trait = {}     # (trait_base, self_base, method) -> [names]
         self.free = {}         # fn name (last component) -> [names]
@@ -57,14 +59,18 @@ class Resolver:
         self.cache = {}
         for n, f in fns.items():
             if f.kind != 'fn' or '{closure#' in n or '::promoted[' in n: continue
-            m = re.search(r'<impl at ([^>]*?)>::(\w+)$', n)
+            m = re.search(r'<impl at ([^>]*?)>::(\w+)(#\d+)?$', n)
             if m:
                 span, method = m.group(1), m.group(2)
                 tr, selfb = self.impl_header(span, f)
+                if selfb == '*': selfb = self.macro_self(f)
                 self.by_type.setdefault((selfb, method), []).append(n)
                 if tr:
                     self.by_trait.setdefault((tr, selfb, method), []).append(n)
                     self.by_trait_full.setdefault((self.impls[span][3], selfb, method), []).append(n)
+                    self.fn_impl[n] = (tr, selfb)
+                else:
+                    self.fn_impl[n] = (None, selfb)
             elif '<impl at' not in n:
                 self.free.setdefault(n.split('::')[-1], []).append(n)
             else:
@@ -125,6 +131,11 @@ class Resolver:
             trfull = tr
             if f is not None and f.args:
                 selfb = base_name(f.locals[f.args[0]])
+            if tr is None and f is not None and f.name.rsplit('::', 1)[-1].split('#')[0] == 'from' and len(f.args) == 1:
+                # generated by a proc macro attribute such as thiserror's #[from]: impl From<Arg> for Ret
+                tr, trfull, selfb = 'From', 'From<' + norm_ty(f.locals[f.args[0]]) + '>', base_name(f.ret or '')
+        if selfb and '$' in selfb: selfb = '*'        # impl generated by macro_rules!: Self is a macro parameter
+        if tr and '$' in tr: tr = trfull = '*'
         self.impls[span] = (tr, selfb, text, trfull)
         return tr, selfb
 
@@ -171,7 +182,7 @@ class Resolver:
         if len(parts) >= 2:
             cands = self.by_type.get((parts[-2], parts[-1]))
             if cands:
-                inh = [n for n in cands if self.impl_of(n)[0] is None]
+                inh = [n for n in cands if self.fn_impl.get(n, (None,))[0] is None]
                 return self._pick(inh or cands, callee)
         if parts[0] in ('core', 'std', 'alloc'): return None
         cands = [n for n in self.free.get(parts[-1], []) if '<impl at' not in n]
@@ -188,6 +199,29 @@ class Resolver:
             elif len(cands) > 1: cands = [n for n in cands if '::' not in n] or cands
         if cands: return self._pick(cands, callee)
         return None
+
+    def macro_self(self, f):
+        """Self of an impl generated by macro_rules! (`impl $T`): the crate type named first in the signature"""
+        if self.crate_types is None:
+            from . import layout
+            L = layout.load(self.repo)
+            self.crate_types = set(L.structs) | set(L.enums)
+        for t in [f.locals.get(a, '') for a in f.args] + [f.ret or '']:
+            for w in re.findall(r'[A-Z]\w+', t):
+                if w in self.crate_types and w not in ('Result', 'Option'): return w
+        return '*'
+
+    def macro_self_types(self):
+        """types that have macro_rules!-generated impls (their Self is a macro parameter in the source)"""
+        if not hasattr(self, '_mst'):
+            self._mst = set()
+            for n, f in self.fns.items():
+                m = re.search(r'<impl at ([^>]*?)>::\w+$', n)
+                if m and self.impl_header(m.group(1), f)[1] == '*':
+                    for t in [f.locals.get(a, '') for a in f.args] + [f.ret or '']:
+                        b = base_name(t)
+                        if b and b[0].isupper(): self._mst.add(b)
+        return self._mst
 
     def impl_of(self, name):
         m = re.search(r'<impl at ([^>]*?)>', name)
@@ -215,7 +249,17 @@ class Resolver:
                     if t == tr and s == selfb: return ex.call_fn(n, [])
             return None
         c2 = _strip_generics(c)
-        parts = c2.split('::')
+        # free constants / statics of the crate: `http_util::CONTENT_TYPE_JSON`
+        if ('const ' + c2) in self.fns: return ex.call_fn('const ' + c2, [])
+        suffix = [n for n in self.fns if n.startswith('const ') and '<impl' not in n and ('::' + n[6:]).endswith('::' + c2)]
+        if len(suffix) == 1: return ex.call_fn(suffix[0], [])
+        parts = [p_ for p_ in c2.split('::') if p_]
+        if not parts: return None
+        # simple literal constants are not dumped as MIR items: read them from the source
+        hits = [v for (stem, nm), v in ex.L.consts.items() if nm == parts[-1] and (len(parts) < 2 or parts[-2] == stem or not parts[-2][0].islower())]
+        if len(parts) >= 2 and parts[-2][0].islower():
+            hits = [v for (stem, nm), v in ex.L.consts.items() if nm == parts[-1] and stem == parts[-2]]
+        if len(hits) == 1 and parts[0] not in ('http', 'std', 'core', 'hyper'): return hits[0]
         if len(parts) >= 2:
             ty, nm = parts[-2], parts[-1]
             cands = []
@@ -225,7 +269,7 @@ class Resolver:
                     if s == ty: cands.append(n)
             if len(cands) == 1: return ex.call_fn(cands[0], [])
             if len(cands) > 1:
-                inh = [n for n in cands if self.impl_of(n)[0] is None]
+                inh = [n for n in cands if self.fn_impl.get(n, (None,))[0] is None]
                 if len(inh) == 1: return ex.call_fn(inh[0], [])
         return None
 
